@@ -6,6 +6,7 @@ per path (decision-schedule replay, DFS).  See /verif/DESIGN.md section 2.1.
 """
 import fractions
 import math
+import os
 import time
 import numbers
 
@@ -123,8 +124,44 @@ def linearise(e):
     return out
 
 
+def _flatten_and(cs):
+    out = []
+    stack = list(cs)
+    while stack:
+        c = stack.pop()
+        if z3.is_and(c):
+            stack.extend(c.children())
+        else:
+            out.append(c)
+    return out
+
+
+def eliminate_definitions(constraints):
+    """substitute definitional equalities  aux!k == term  (aux not in term) into the other constraints."""
+    flat = _flatten_and(constraints)
+    eqs = {}
+    for c in flat:
+        if z3.is_eq(c):
+            l, r = c.children()
+            for a, b in ((l, r), (r, l)):
+                if z3.is_const(a) and a.decl().kind() == z3.Z3_OP_UNINTERPRETED and "!" in a.decl().name() \
+                        and a.decl().name() not in eqs and a.decl().name() not in vars_of(b) and z3.is_real(a):
+                    eqs[a.decl().name()] = (a, b)
+                    break
+    if not eqs:
+        return flat
+    subs = list(eqs.values())
+    out = flat
+    for _ in range(6):
+        new = [z3.substitute(c, *subs) for c in out]
+        if all(n.get_id() == o.get_id() for n, o in zip(new, out)):
+            break
+        out = new
+    return out
+
+
 def relaxation_unsat(constraints, timeout_ms=3000):
-    lin = [linearise(c) for c in constraints]
+    lin = [linearise(c) for c in eliminate_definitions(constraints)]
     s = z3.Solver()
     s.set("timeout", int(timeout_ms))
     s.add(*lin)
@@ -184,6 +221,7 @@ class Ctx:
         self.notes = []       # free-form events (stubs hit ...)
         self.cache = None
         self.inputs = {}      # name -> z3 var, harness inputs (for counterexamples)
+        self.hints = {}       # 'unit': [(xname, yname)], 'positive': [names] -- only used by sample_model
 
     # -- bookkeeping
     def newvar(self, name):
@@ -232,7 +270,21 @@ class Ctx:
             rest = nr
         return used
 
+    def _z3_check(self, constraints, timeout_ms, want_model):
+        s = z3.Solver()
+        s.set("timeout", int(max(timeout_ms, 1)))
+        s.add(*constraints)
+        r = str(s.check())
+        vals = None
+        if r == "sat" and want_model:
+            vals = model_values(s.model())
+            if vals is None:
+                r = "unknown"
+        return r, vals
+
     def solve(self, constraints, timeout_ms, want_model=False):
+        """'sat' | 'unsat' | 'unknown' (+ dict name -> float when want_model and sat).
+        Order: linear relaxation (unsat only) -> z3 (short) -> concretise-and-solve sampling (sat only) -> z3 (full)."""
         key = None
         if self.cache is not None and not want_model:
             key = (tuple(sorted(c.get_id() for c in constraints)))
@@ -240,31 +292,114 @@ class Ctx:
                 self.stats.cache_hits += 1
                 return self.cache[key], None
         t0 = time.time()
-        r = None
+        st = self.stats
+        rs, vals = None, None
         if self.opts.get("relax", True):
             try:
                 if relaxation_unsat(constraints):
-                    r = z3.unsat
-                    self.stats.relaxed_unsat = getattr(self.stats, "relaxed_unsat", 0) + 1
+                    rs = "unsat"
+                    st.relaxed_unsat = getattr(st, "relaxed_unsat", 0) + 1
             except z3.Z3Exception:
-                r = None
-        s = None
-        if r is None:
-            s = z3.Solver()
-            s.set("timeout", int(timeout_ms))
-            s.add(*constraints)
-            r = s.check()
+                rs = None
+        if rs is None:
+            short = min(timeout_ms, self.opts.get("short_timeout_ms", 3000))
+            rs, vals = self._z3_check(constraints, short, want_model)
+            if rs == "unknown" and self.opts.get("sample", True):
+                v = self.sample_model(constraints)
+                if v is not None:
+                    rs, vals = "sat", v
+                    st.sampled_sat = getattr(st, "sampled_sat", 0) + 1
+            if rs == "unknown" and timeout_ms > short:
+                rs, vals = self._z3_check(constraints, timeout_ms - short, want_model)
         dt = time.time() - t0
-        st = self.stats
         st.solver_s += dt
         st.max_query_s = max(st.max_query_s, dt)
-        rs = str(r)
         st.queries[rs] += 1
+        if dt > 2 and os.environ.get("SYMX_DEBUG"):
+            import sys
+            names = set()
+            for c in constraints:
+                names |= vars_of(c)
+            print(f"[slow query] {rs} {dt:.1f}s constraints={len(constraints)} vars={len(names)} last={str(constraints[-1])[:200]}", file=sys.stderr, flush=True)
         if key is not None:
             self.cache[key] = rs
             self._keep = getattr(self, "_keep", [])
             self._keep.append(constraints)
-        return rs, (s.model() if (want_model and rs == "sat") else None)
+        return rs, (vals if want_model else None)
+
+    def sample_model(self, constraints, tries=None, per_try_ms=1500):
+        """Sat-side helper for nonlinear systems nlsat cannot model: give the harness inputs concrete rational values
+        (unit-vector pairs from the rational parametrisation of the circle), solve the rest.  Any model found is a
+        genuine model of `constraints` (checked by z3 on the substituted system)."""
+        import random
+        tries = tries or self.opts.get("sample_tries", 12)
+        names = set()
+        for c in constraints:
+            names |= vars_of(c)
+        inputs = [n for n in self.inputs if n in names]
+        if not inputs:
+            return None
+        rng = self.opts.get("_rng")
+        if rng is None:
+            rng = random.Random(int(os.environ.get("VERIF_SEED", "0") or 0) + 12345)
+            self.opts["_rng"] = rng
+        unit_pairs = [(a, b) for a, b in self.hints.get("unit", []) if a in names or b in names]
+        in_unit = {n for p in unit_pairs for n in p}
+        positive = set(self.hints.get("positive", []))
+        hv = self.hints.get("values", {})
+        for t in range(tries):
+            assign = {}
+            guided = bool(hv) and t < max(2, (2 * tries) // 3)
+            for a, b in unit_pairs:
+                if guided and a in hv and b in hv:
+                    # rational point on the unit circle close to the hinted direction (exact unit vector)
+                    hx, hy = hv[a], hv[b]
+                    ang = math.atan2(hy, hx) + (0.0 if t == 0 else rng.uniform(-0.25, 0.25) * (1 + t // 4))
+                    ang = (ang + math.pi) % (2 * math.pi) - math.pi
+                    if abs(abs(ang) - math.pi) < 1e-6:
+                        x, y = Fraction(-1), Fraction(0)
+                    else:
+                        tt = Fraction(math.tan(ang / 2)).limit_denominator(40)
+                        x, y = (1 - tt * tt) / (1 + tt * tt), 2 * tt / (1 + tt * tt)
+                else:
+                    p, q = rng.randint(-9, 9), rng.randint(1, 7)
+                    tt = Fraction(p, q)
+                    x, y = (1 - tt * tt) / (1 + tt * tt), 2 * tt / (1 + tt * tt)
+                    if rng.random() < 0.5:
+                        x = -x
+                    if rng.random() < 0.5:
+                        x, y = y, x
+                assign[a], assign[b] = x, y
+            if guided:
+                for n in inputs:
+                    if n not in in_unit and n in hv and t % 2 == 1:
+                        assign[n] = Fraction(hv[n] * (1 + (rng.uniform(-0.2, 0.2) if t > 1 else 0))).limit_denominator(1000)
+            elif t >= tries // 2 or not unit_pairs:
+                for n in inputs:
+                    if n not in in_unit:
+                        v = Fraction(rng.randint(-12, 12), rng.randint(1, 4))
+                        if n in positive:
+                            v = abs(v) + Fraction(1, 4)
+                        assign[n] = v
+            subs = [(z3.Real(n), z3.RealVal(str(v))) for n, v in assign.items()]
+            rest = []
+            dead = False
+            for c in constraints:
+                c2 = z3.simplify(z3.substitute(c, *subs))
+                if z3.is_false(c2):
+                    dead = True
+                    break
+                if not z3.is_true(c2):
+                    rest.append(c2)
+            if dead:
+                continue
+            r, vals = self._z3_check(rest, per_try_ms, True) if rest else ("sat", {})
+            if r == "sat":
+                out = dict(vals)
+                for n, v in assign.items():
+                    out[n] = float(v)
+                return out
+        return None
 
     def feasible(self, e, timeout_ms=None):
         """is pc /\\ e satisfiable?  'sat' | 'unsat' | 'unknown' (exact definitions)."""
@@ -533,6 +668,9 @@ class SymReal:
     def __round__(s, k=0):
         c = CTX
         k = int(k or 0)
+        if _is_num(s.e):
+            v = _num(s.e)
+            return _mk(z3.RealVal(str(Fraction(round(float(v), k)))))
         memo = c.memo.setdefault("round", {})
         key = (s.e.get_id(), k)
         if key in memo:
@@ -761,6 +899,17 @@ def model_value(m, v):
     raise Inconclusive(f"cannot concretise {x}")
 
 
+def model_values(m):
+    out = {}
+    for dcl in m.decls():
+        if dcl.arity() == 0 and z3.is_real(dcl()):
+            try:
+                out[dcl.name()] = model_value(m, dcl())
+            except Inconclusive:
+                return None
+    return out
+
+
 def decide(c, claim, extra=None):
     """Is `claim` implied on the current path?  Returns (verdict, model|None, level, seconds).
     verdict: 'unsat' (holds), 'sat' (counterexample, exact definitions), 'unknown'."""
@@ -793,7 +942,7 @@ def decide(c, claim, extra=None):
     raise AssertionError
 
 
-def full_model(c, extra):
+def full_model(c, extra, known=None, timeout_ms=None):
     """Model of the whole exact path condition + extra constraints, solved cluster by cluster.
     Returns (status, values): status 'sat' | 'unsat' (some cluster infeasible) | 'unknown'."""
     cons = [(e, vars_of(e)) for e, _ in c.pc] + [(d.exact, d.vars) for d in c.defs] + \
@@ -824,17 +973,20 @@ def full_model(c, extra):
         clusters.setdefault(find(next(iter(vs))), []).append(e)
     values = {}
     status = "sat"
+    if known:
+        values.update(known)
     for root, es in clusters.items():
-        r, m = c.solve(es, c.opts["final_timeout_ms"], want_model=True)
+        if known:
+            cv = set()
+            for e in es:
+                cv |= vars_of(e)
+            if cv & set(known):
+                continue        # this cluster is the slice the caller already has a model of
+        r, m = c.solve(es, timeout_ms or c.opts["final_timeout_ms"], want_model=True)
         if r == "unsat":
             return "unsat", None
         if r != "sat":
             status = "unknown"
             continue
-        for dcl in m.decls():
-            if dcl.arity() == 0 and z3.is_real(dcl()):
-                try:
-                    values[dcl.name()] = model_value(m, dcl())
-                except Inconclusive:
-                    status = "unknown"
+        values.update(m)
     return status, (values if status == "sat" else None)
